@@ -86,9 +86,13 @@ def run(mod, tier, seed, replay=None):
         "disagreements_checked": stats.get("disagreements", 0),
         "refuted": stats.get("refuted", []),
     })
-    found_any = any(v[3] for v in rep.violations)
-    if stats.get("disagreements", 0):
-        broken.append("correspondence: %d case(s) where model and implementation differ" % stats["disagreements"])
+    # a concrete failing input that is NOT a listed known finding explains a broken proof / correspondence;
+    # known findings explain only the disagreements on their own cases
+    open_sigs = {k["signature"] for k in vlib.load_known().get("open", []) if k.get("property") == rep.pid}
+    found_any = any(v[3] and v[0] not in open_sigs for v in rep.violations)
+    ndis = stats.get("unexplained_disagreements", stats.get("disagreements", 0))
+    if ndis:
+        broken.append("correspondence: %d case(s) where model and implementation differ" % ndis)
     if broken and not found_any:
         rep.violation("broken:" + broken[0][:60],
                       "no longer shown to hold: " + " | ".join(broken),
@@ -112,6 +116,7 @@ def standard(ctx, cases, oracle, nontrivial, rule, dist, samples_from=None, mode
     if ctx.get("driver"):
         model = vlib.run_cases(ctx["driver"], model_cases if model_cases is not None else cases, shards=vlib.NCPU)
     dis = []
+    unexplained = 0
     nt = set()
     for i, c in enumerate(cases):
         io = impl[i] if i < len(impl) else "MISSING"
@@ -120,6 +125,7 @@ def standard(ctx, cases, oracle, nontrivial, rule, dist, samples_from=None, mode
         if nontrivial(c, io):
             nt.add(c)
         v = oracle(c, io)
+        explained = bool(v)
         if v:
             sig, desc = v
             rep.violation(sig, desc, {"case": c, "implementation": io[:4000],
@@ -136,7 +142,10 @@ def standard(ctx, cases, oracle, nontrivial, rule, dist, samples_from=None, mode
                     # (e.g. the implementation accepts what the independent model rejects)
                     v = on_disagree(c, io, mo)
                     if v:
+                        explained = True
                         rep.violation(v[0], v[1], {"case": c, "implementation": io[:4000], "model": mo[:4000]})
+                if not explained:
+                    unexplained += 1
     rnd = random.Random(ctx["seed"])
     samp = []
     for i in sorted(rnd.sample(range(len(cases)), min(6, len(cases)))):
@@ -144,4 +153,6 @@ def standard(ctx, cases, oracle, nontrivial, rule, dist, samples_from=None, mode
                      "model": (model[i][:300] if model and i < len(model) else None)})
     return {"evaluations": len(cases), "distinct_nontrivial": len(nt), "rule": rule, "dist": dist,
             "samples": samp, "disagreements": len(dis), "first_disagreements": dis[:10],
+            # disagreements on cases for which no concrete violation was reported (those are explained by it)
+            "unexplained_disagreements": unexplained,
             "exhaustive_subspaces": list(exhaustive_subspaces), "exhaustive": False}
